@@ -184,6 +184,68 @@ def main():
             c.violation("C15:%s:%s:accepted:%s" % (lang, fmt, fault), "stream with header fault [%s] was opened and a value was delivered: %s" % (fault, delivered[:2]), replay)
         elif req == "accept" and not (opened and delivered):
             c.violation("C15:%s:%s:refused-own" % (lang, fmt), "a well-formed stream carrying [%s] was refused: %s" % (fault or "the reader's own schema", lines[:2]), replay)
+    # ---- near-identical protocols: every type edit that Schema.tla classifies as changing the encoding (computed from Wire.tla),
+    #      once with the expanded and once with the shorthand spelling of the types: protocol A's stream (real header, empty
+    #      stream body) given to protocol B's generated Python readers must be refused, in both directions and both formats
+    sres = tlc_eval("Schema", timeout=600)
+    edits = [x for x in tlc_cases(sres.out) if x.get("kind") == "type" and x["class"] == "affecting"]
+    c.cov["near_identical_type_edits"] = len(edits)
+
+    def near_pkg(tag, side, t, style):
+        d = os.path.join(sc, "near-%s-%s" % (tag, side))
+        os.makedirs(os.path.join(d, "model"))
+        k = wirelib.Concretiser(style)
+        ty = k.node(t)
+        model = k.model_text("Rec: !record\n  fields:\n    x: %s\n    y: string?\nP: !protocol\n  sequence:\n    a: int\n    s: !stream\n      items: Rec\n" % ty)
+        open(os.path.join(d, "model", "_package.yml"), "w").write("namespace: Near\npython:\n  outputDir: ../py\n")
+        open(os.path.join(d, "model", "m.yml"), "w").write(model)
+        rc, o, e = run([yardl, "generate"], cwd=os.path.join(d, "model"), env=yardl_env(home), timeout=60)
+        if rc != 0:
+            raise Inconclusive("near-identical model %s/%s does not generate: %s\n%s" % (tag, side, e[-300:], model))
+        cmd = [PY, PYCALLS, os.path.join(d, "py"), "near", "P"]
+        files = {}
+        for fmt in ("binary", "ndjson"):
+            files[fmt] = os.path.join(d, "valid." + fmt)
+            rc, lines, se = drivers.run_calls(cmd, "wcalls", fmt, files[fmt], ["write 0 value 0", "write 1 list 0", "close"])
+            if rc != 0 or any(l.startswith("EXC") for l in lines):
+                raise Inconclusive("cannot write a reference %s stream for near-identical model %s/%s: %s %s" % (fmt, tag, side, lines[-2:], se[-300:]))
+        schema = wirelib.extract_schema_py(open(os.path.join(d, "py", "near", "protocols.py")).read(), "P")
+        return {"cmd": cmd, "files": files, "schema": schema, "model": model}
+
+    def near_work(job):
+        x, style_name, style = job
+        tag = "%s-%s" % (x["edit"], style_name)
+        a, b = near_pkg(tag, "a", x["a"], style), near_pkg(tag, "b", x["b"], style)
+        out = []
+        for src, dst, direction in ((a, b, "a->b"), (b, a, "b->a")):
+            for fmt in ("binary", "ndjson"):
+                rc, lines, se = drivers.run_calls(dst["cmd"], "rcalls", fmt, src["files"][fmt], ["read 0", "read 1"])
+                out.append((direction, fmt, rc, lines, se))
+            # control: the reader accepts its own stream
+            rc, lines, se = drivers.run_calls(dst["cmd"], "rcalls", "binary", dst["files"]["binary"], ["read 0"])
+            out.append((direction, "own", rc, lines, se))
+        return x, style_name, a, b, out
+
+    jobs = [(x, sn, st) for x in edits for sn, st in (("expanded", None), ("shorthand", dict(shorthand=True, prim_alias=True, optional="question")))]
+    for x, style_name, a, b, out in pmap(near_work, jobs):
+        c.count(("near", x["edit"], style_name), nontrivial=True)
+        key = "C15:near:%s:%s" % (x["edit"], style_name)
+        replay = {"edit": x["edit"], "spelling": style_name, "model_a": a["model"], "model_b": b["model"]}
+        if a["schema"] == b["schema"]:
+            c.violation(key + ":same-schema", "two protocols that differ in one field type (%s, encoded differently) embed the same schema" % x["edit"], replay)
+            continue
+        for direction, fmt, rc, lines, se in out:
+            c.cov["traces_validated_against_impl"] += 1
+            delivered = [l for l in lines if l.startswith(("VAL", "OK"))]
+            if fmt == "own":
+                if not delivered:
+                    raise Inconclusive("near-identical control: a reader refuses its own stream: %s %s" % (lines[:3], se[-200:]))
+            elif rc not in (0, 1):
+                c.violation(key + ":crash", "python %s reader died (exit %s) on the stream of a near-identical protocol (%s)" % (fmt, rc, direction), dict(replay, observed=lines[:4], stderr=se[-300:]))
+            elif delivered:
+                c.violation(key + ":accepted:%s" % fmt, "python %s reader accepted the stream of a protocol that differs in one field type (%s, %s) and delivered %s" % (
+                    fmt, x["edit"], direction, delivered[:2]), dict(replay, observed=lines[:4]))
+
     # ---- several readers in one process: having accepted a stream with its own reader must not make another protocol's
     #      reader accept the same stream (all orders, both formats)
     two = os.path.join(sc, "two")
